@@ -38,7 +38,9 @@ BOUNDED_RULE = (
 )
 
 BASE = 1600000000.0
-MSGS = ["Starting", "Working on a much longer task name", "<info>Done</info>", "x"]
+# (the last one is short - a shorter frame after a longer one - and looks like the placeholders of the frame format: the
+#  message is text, whatever it looks like)
+MSGS = ["Starting", "Working on a much longer task name", "<info>Done</info>", "x {indicator} {message}"]
 _TAG = re.compile(r"</?(?:info|comment|b)>")
 ERASE = "\r\x1b[2K"
 
